@@ -56,7 +56,7 @@ Proof.
 Qed.
 
 Definition oas_val (off size : Z) : val := VStruct [("Offset", VInt off); ("Size", VInt size)].
-Definition err_len : val := VErr "errors.New: invalid byte slice length".
+Definition err_len : val := VErr "errors.New".
 
 (* Everything below holds for ANY translated program that binds these names to these function terms. *)
 Section Generic.
